@@ -6,3 +6,8 @@ import datatransfer "github.com/filecoin-project/go-data-transfer/v2"
 
 // verifTrace is a no-op unless the library is built with the "verif" tag (see verifhook_on.go).
 func verifTrace(*Channels, datatransfer.Event, datatransfer.ChannelState) {}
+
+// verifPoint / verifRegisterEnv are no-ops unless the library is built with the "verif" tag.
+func verifPoint(interface{}, string, string, datatransfer.ChannelID, datatransfer.EventCode, ...interface{}) {
+}
+func verifRegisterEnv(*Channels, ChannelEnvironment) {}
